@@ -117,7 +117,8 @@ func val(seed, i int) float64 {
 	return float64(int(x%13)) - 3
 }
 
-var strTable = []string{"", "a", "b", "ab", "x,y", "q\"uote", "new\nline", " sp ", "üñí", "0", "-1", "NaN", "zz", "A"}
+var strTable = []string{"", "a", "b", "ab", "x,y", "q\"uote", "new\nline", " sp ", "üñí", "0", "-1", "NaN", "zz", "A",
+	"#c", "#", "a\tb", "x;y", "'s'", "1e5", "\\n", "é\u0301", "long-" + "0123456789012345678901234567890123456789", "cr\r\nlf", "cr\rx"}
 
 func strVal(seed, i int) string {
 	x := uint64(seed)*0x9e3779b97f4a7c15 + uint64(i)*0xd6e8feb86659fd93
